@@ -209,6 +209,22 @@ func (r *sizeRun) run() {
 		r.expectGone(id1, "Delete(id1,id2)")
 		r.expectGone(id2, "Delete(id1,id2)")
 		r.expect(id3, data, "Get(id3) after deleting the others", "delete")
+		// a call that names an id that is not stored (first / in the middle): it may fail, but when it reports success
+		// every id it named must be gone
+		for _, order := range [][]imap.InternalMessageID{{id1, id2, id3}, {id2, id1, id3}} {
+			if !r.set(order[1], data, "Set before a Delete with a missing id") || !r.set(id3, data, "Set(id3)") {
+				return
+			}
+			_ = r.st.Delete(order[0]) // make sure the first one named is missing
+			if err := r.st.Delete(order...); err == nil {
+				for _, id := range order {
+					r.expectGone(id, "a Delete over several ids, one of them not stored, that reported success")
+				}
+			}
+			_ = r.st.Delete(id1)
+			_ = r.st.Delete(id2)
+			_ = r.st.Delete(id3)
+		}
 	case "list":
 		r.expectList(nil, "List of the empty store")
 		if !r.set(id1, data, "Set(id1)") {
